@@ -182,16 +182,30 @@ where
         if payload.delivery_tag == self.parent.expected {
             // exact match - we'll return this tag, and set next to an out-of-order
             // entry for the next tag if we had one
+            // (unless a confirmation for this very tag arrived earlier, out of order,
+            // and we are only reaching it now while expanding a "multiple")
+            let ret = self
+                .parent
+                .out_of_order
+                .remove(&payload.delivery_tag)
+                .unwrap_or_else(|| (self.to_confirm)(payload.delivery_tag));
             self.parent.expected += 1;
             self.next = self.parent.out_of_order.remove(&self.parent.expected);
-            return Some((self.to_confirm)(payload.delivery_tag));
+            return Some(ret);
         }
 
         if payload.delivery_tag > self.parent.expected {
             // tag is in the future; if it's "multiple", keep sending all tags in
             // between where we are now and payload.delivery_tag
             if payload.multiple {
-                let ret = (self.to_confirm)(self.parent.expected);
+                // ...except for tags already confirmed individually, which keep
+                // the outcome of that earlier confirmation
+                let expected = self.parent.expected;
+                let ret = self
+                    .parent
+                    .out_of_order
+                    .remove(&expected)
+                    .unwrap_or_else(|| (self.to_confirm)(expected));
                 self.parent.expected += 1;
                 return Some(ret);
             } else {
